@@ -50,7 +50,8 @@ type Reply struct {
 	Encoding string // Content-Encoding value ("" = none)
 	Gate     <-chan struct{}
 	Delay    time.Duration
-	Abort    bool // close the connection without an answer
+	Abort    bool // answer with bytes that are not HTTP, then close (a plain close would make Go's transport retry)
+	Truncate bool // announce the full Content-Length, send half of the body, close
 	// ServeContent: answer through http.ServeContent with this ETag / modification time
 	ServeContent bool
 	ETag         string
@@ -280,6 +281,20 @@ func (o *Origin) handle(w http.ResponseWriter, r *http.Request) {
 		if hj, ok := w.(http.Hijacker); ok {
 			conn, _, err := hj.Hijack()
 			if err == nil {
+				conn.Write([]byte("BROKEN UPSTREAM\r\n\r\n"))
+				conn.Close()
+				return
+			}
+		}
+		panic(http.ErrAbortHandler)
+	}
+	if rep.Truncate {
+		if hj, ok := w.(http.Hijacker); ok {
+			conn, bw, err := hj.Hijack()
+			if err == nil {
+				fmt.Fprintf(bw, "HTTP/1.1 200 OK\r\nContent-Type: text/plain\r\nCache-Control: max-age=60\r\nX-Fetch: %d\r\nContent-Length: %d\r\n\r\n", f.ID, len(rep.Body)+100)
+				bw.Write(rep.Body)
+				bw.Flush()
 				conn.Close()
 				return
 			}
